@@ -126,6 +126,30 @@ where
         },
         Some(p) => ev.p(&p),
     }
+    // a non-self-describing format (bare field sequence, bincode / postcard style): F and Wrapping<F>
+    let mut fs: Option<(Result<u128, String>, String)> = None;
+    match guard(&mut || {
+        let (r, log) = drv::recser::from_field_seq::<F>(a);
+        fs = Some((r.map(tb), log));
+    }) {
+        None => {
+            let (r, log) = fs.unwrap();
+            ev.t(match &r { Ok(_) => log.clone(), Err(e) => format!("{} => ERR {}", log, e) }.as_bytes());
+            match r {
+                Ok(v) => ev.ok(v),
+                Err(_) => ev.err(""),
+            }
+        }
+        Some(p) => ev.p(&p),
+    }
+    let mut wfs: Option<Result<u128, String>> = None;
+    match guard(&mut || wfs = Some(drv::recser::from_field_seq::<Wrapping<F>>(a).0.map(|w| tb(w.0)))) {
+        None => match wfs.unwrap() {
+            Ok(v) => ev.ok(v),
+            Err(_) => ev.err(""),
+        },
+        Some(p) => ev.p(&p),
+    }
     ev.end();
 }
 
